@@ -257,7 +257,23 @@ class Endpoint:
         for o in sim.oracles:
             o.on_datagram_delivered(self, dgram, copy_index)
         self.api("receive_datagram", dgram.data, dgram.src, self.now())
-        self.pump()
+        batch = sim.cfg.get("batch_rx")
+        if batch is None:
+            self.pump()
+        elif not getattr(self, "pump_pending", False):
+            # an application that reads every datagram that is (about to be) available before it asks the
+            # connection for events and for what to send: a legal use of the Sans-IO API
+            self.pump_pending = True
+            self.k.at(self.k.now + batch, self._deferred_pump, tag="pump:" + self.name)
+
+    def _deferred_pump(self):
+        self.pump_pending = False
+        if self.crashed or self.broken:
+            return
+        try:
+            self.pump()
+        except EndpointBroken:
+            pass
 
     def wake(self):
         self.stalled_until = None
@@ -624,6 +640,7 @@ class TransportSim:
         cfg["client_idle"] = it[c.choose(len(it))]
         cfg["server_idle"] = it[c.choose(len(it))]
         cfg["initial_rtt"] = (0.1, 0.05, 0.333)[c.choose(3)]
+        cfg["batch_rx"] = (0.0, 0.0005, 0.005)[c.choose(3)] if p.get("batch_rx_p") and c.chance(p["batch_rx_p"]) else None
         cfg["quiet_side"] = c.choose(2) if p.get("quiet_side_p") and c.chance(p["quiet_side_p"]) else None
         cfg["retry"] = bool(p.get("retry_p")) and c.chance(p["retry_p"])
         cfg["retry_pad"] = 0
